@@ -480,6 +480,9 @@ def main():
         "stubbed": "os, path/filepath, os/exec, sync.Mutex, fsnotify (simulated OS); runtime.rand/bootstrapRand seeded via overlay",
         "simulator_build_s": round(sim.build_s, 1),
     }
+    n_cases = check.coverage["evaluations"]
+    if not check.violations and n_cases >= 20 and totals["accepted"] < 0.25 * n_cases:
+        raise tw.HarnessTrouble("yardl accepted only %d of %d packages of the workload (about a quarter are invalid on purpose); nothing was decided" % (totals["accepted"], n_cases))
     check.assumptions += ["simulator built with go1.26.8 (shipped binary uses 1.24): yardl's source semantics assumed toolchain-independent",
                           "the seeded runtime only produces iteration orders the stock runtime can produce (seeds and start offsets), not arbitrary permutations"]
     check.finish()
